@@ -1,6 +1,7 @@
 import NauyacaVerif.Srv.ConnMore
 import NauyacaVerif.Srv.PumpProof
 import NauyacaVerif.Srv.FlowProof
+import NauyacaVerif.Srv.SysSeg
 import NauyacaVerif.Gen.Params
 
 /-! # C15  Silent peers are always disconnected within the timeout
@@ -78,4 +79,13 @@ theorem pump_inner_timer (cfg : Cfg) (evs : List PEv) (i : St) (hi : (pumpRun cf
     (i.timer = true ↔ (waiting i.phase ∧ i.lost = false ∧ i.sent = false)) ∧ (i.timer = true → i.now < requestTimeout8) :=
   ⟨((pumpRun_pinv cfg evs).innerInv i hi).1.timerIff, ((pumpRun_pinv cfg evs).innerInv i hi).2.1⟩
 
+
+/-- on the composed machine: when the clock reaches the deadline on a connection still waiting for its request, the timeout
+    response is decided, and on a transport that accepts it, it is written whole and the connection is closed -/
+theorem sys_timeout_closes (cfg : Cfg) (dyn : Nat → Bytes) (evs : List Sys.SEv) (dt : Nat) (ht : (Sys.srun cfg dyn evs).conn.timer = true)
+    (hd : (Sys.srun cfg dyn evs).conn.now + dt ≥ requestTimeout8) (hp : (Sys.srun cfg dyn evs).flow.paused = false)
+    (hb : (Sys.srun cfg dyn evs).flow.budget = none) :
+    (Sys.sstep cfg dyn (Sys.srun cfg dyn evs) (.conn (.tick dt))).flow.closed = true ∧
+    (Sys.sstep cfg dyn (Sys.srun cfg dyn evs) (.conn (.tick dt))).flow.out = [.write (render ⟨40, strOf "Request timeout", .none⟩).1, .close] :=
+  Sys.timeout_closes cfg dyn _ (Sys.srun_j cfg dyn evs) dt ht hd hp hb
 end NauyacaVerif.C15
